@@ -41,6 +41,7 @@ type COS struct {
 	User       string `json:"user"`
 	Password   string `json:"password"`
 	ReadSize   int    `json:"read_size"`
+	Netconf    bool   `json:"netconf,omitempty"` // raw leg: start the child through the netconf-subsystem path
 	ToSrv      []int  `json:"to_server,omitempty"`
 	FromSrv    []int  `json:"from_server,omitempty"`
 	DataSeed   uint64 `json:"data_seed,omitempty"`
@@ -63,6 +64,7 @@ func genCOS(prop string, legs []string) func(seed uint64, run int, tier string) 
 		sc.ReadSize = pick(r, 64, 1024, 8192, 65536)
 		sc.DataSeed = r.Uint64()
 		if sc.Leg == "raw" {
+			sc.Netconf = r.IntN(2) == 0
 			around := func() int {
 				n := pick(r, 1, sc.ReadSize-1, sc.ReadSize, sc.ReadSize+1, 2*sc.ReadSize+3, between(r, 1, 3000))
 				if n > 20000 {
@@ -385,8 +387,19 @@ func runCOSRaw(env *Env, sc *COS, dir string) {
 	os.Setenv("FAKESSH_FROM", strings.Join(from, ","))
 	os.Setenv("FAKESSH_TO", fmt.Sprint(toTotal))
 	li, _ := logging.NewInstance()
-	tr, err := transport.NewTransport(li, "fakehost", transport.SystemTransport,
-		options.WithSystemTransportOpenBin(fakessh()), options.WithTransportReadSize(sc.ReadSize))
+	topts := []util.Option{options.WithSystemTransportOpenBin(fakessh()), options.WithTransportReadSize(sc.ReadSize)}
+	if sc.Netconf {
+		topts = append(topts, func(o interface{}) error {
+			if a, ok := o.(*transport.SSHArgs); ok {
+				a.NetconfConnection = true
+
+				return nil
+			}
+
+			return util.ErrIgnoredOption
+		})
+	}
+	tr, err := transport.NewTransport(li, "fakehost", transport.SystemTransport, topts...)
 	if err != nil {
 		env.Res.HarnessError = err.Error()
 
